@@ -390,7 +390,63 @@ def degenerate_fits(ctx):
                 ctx.oracle_fail(case, {'what': 'unexpected exception', 'got': res[0]})
 
 
+def numpy_path(ctx):
+    """the fall-back path of inv (platforms where long double is not wider than double): the same
+    oracle on regular, exactly singular, non-finite and non-square input; no model correspondence
+    (that path is numpy.linalg.inv plus a finiteness test)"""
+    from tweakwcs import linalg
+    rng = ctx.rng
+    saved = linalg._USE_NUMPY_LINALG_INV
+    linalg._USE_NUMPY_LINALG_INV = True
+    try:
+        for _ in range(ctx.n(60, 1500)):
+            fam, a = gen_matrix(rng)
+            if fam in ('pow2scale',):
+                continue
+            n = len(a)
+            case = {'op': 'inv-numpy-path', 'family': fam, 'matrix': a}
+            ctx.case(case, nontrivial=n >= 2, branch='numpy-path:' + fam)
+            kind, val, pure = impl_inv(a)
+            if not pure:
+                ctx.oracle_fail(case, {'what': 'inv (numpy path) modified its argument'})
+            if not is_square(a):
+                if kind != 'err':
+                    ctx.oracle_fail(case, {'what': 'non-square input did not raise (numpy path)'})
+                continue
+            if not all(np.isfinite(x) for r in a for x in r):
+                if not (kind == 'err' and val == 'LinAlgError'):
+                    ctx.oracle_fail(case, {'what': 'non-finite input did not raise LinAlgError (numpy path)',
+                                           'got': [kind, repr(val)]})
+                continue
+            exact = exact_inverse([[to_fraction(x) for x in r] for r in a])
+            if exact is None:
+                if exactly_computable([[to_fraction(x) for x in r] for r in a]) and fam == 'singular':
+                    # LAPACK detects an exact zero pivot only when its own (partial pivoting)
+                    # elimination is exact; rank-1 / zero-row / zero-column matrices of small
+                    # dyadic numbers qualify
+                    if kind != 'err':
+                        ctx.near_tie()
+                continue
+            arr = np.array(a, dtype=np.double)
+            cond = float(np.linalg.cond(arr))
+            if cond > 1e12:
+                ctx.near_tie()
+                continue
+            if kind != 'ok':
+                ctx.oracle_fail(case, {'what': 'regular matrix raised (numpy path)', 'cond': cond})
+                continue
+            ex = np.array([[float(v) for v in r] for r in exact])
+            scale = float(np.max(np.abs(ex))) or 1.0
+            err = float(np.max(np.abs(np.array(val, dtype=np.double) - ex)))
+            if err > 64 * n * cond * EPS * scale:
+                ctx.oracle_fail(case, {'what': 'numpy path disagrees with the exact rational inverse', 'err': err,
+                                       'cond': cond})
+    finally:
+        linalg._USE_NUMPY_LINALG_INV = saved
+
+
 def run(ctx):
+    numpy_path(ctx)
     lines, pending = [], []
     for fam, a in CORPUS:
         check_case(ctx, fam, a, lines, pending)
